@@ -362,10 +362,11 @@ class C15(Property):
     title = 'Damaged or hostile input fails safely with an EDXML error'
     design_ref = 'DESIGN.md section 10, C15'
     required_theorems = ('rejected_never_delivered', 'rejected_never_delivered_doc', 'stops_at_first_error', 'gate_rejection_raises',
-                         'pstep_logOk')
+                         'pstep_logOk', 'rejected_ontology_not_delivered')
     level = 'proof'
     level_text = ('PARTIAL. Lean 4 theorems over the parser state machine (the C14 model): for every document and wherever parsing ends, '
-                  'every event that reached a handler is an event item that the validation gate accepted (with validation on), '
+                  'every event that reached a handler is an event item that the validation gate accepted (with validation on), an '
+                  'ontology element that the gate rejects reaches no callback and leaves the parser\'s ontology alone, '
                   'and processing stops at the first rejected element, so nothing after it has any influence. The machine is '
                   'compared with the pull and push parsers on documents with token-level faults. That no exception outside the '
                   'EDXML error family escapes and that parsing terminates for arbitrary bytes is runtime behaviour (lxml, Python '
@@ -428,7 +429,8 @@ class C15(Property):
     def observe(self, case):
         if case['kind'] == 'items':
             o = c14.PROPERTY.observe(case['c14'])
-            return {'err': o['err'], 'delivered': [c for c in o['log'] if c[0] in ('h', 'fb')]}
+            return {'err': o['err'], 'delivered': [c for c in o['log'] if c[0] in ('h', 'fb')],
+                    'ontologies': [c for c in o['log'] if c[0] == 'ont']}
         if case['kind'] == 'reuse':
             # (a push parser cannot be fed a second document: its XML parser is not renewed by close())
             r = run_many(self.reuse_docs(case), 'pull', case.get('clear', False))
@@ -444,7 +446,8 @@ class C15(Property):
     def predict(self, case, replies):
         if case['kind'] == 'items':
             v = c14.PROPERTY.predict(case['c14'], replies)
-            return {'err': v['err'], 'delivered': [c for c in v['log'] if c[0] in ('h', 'fb')]}
+            return {'err': v['err'], 'delivered': [c for c in v['log'] if c[0] in ('h', 'fb')],
+                    'ontologies': [c for c in v['log'] if c[0] == 'ont']}
         return 'undecided'
 
     def fill_undecided(self, case, obs, pred):
@@ -458,6 +461,16 @@ class C15(Property):
             for c in obs['delivered']:
                 if not by_idx[c[-1]]['gate']:
                     return 'event %d is rejected by the validation gate but was delivered to a callback' % c[-1]
+            # an ontology callback is due for every ontology element that was accepted, and for no other
+            accepted = 0
+            for it in case['c14']['items']:
+                if it['k'] == 'ont':
+                    if not it['valid']:
+                        break
+                    accepted += 1
+            if len(obs.get('ontologies', [])) > accepted:
+                return ('%d ontology callbacks for %d accepted ontology elements: an ontology element that the validation gate '
+                        'rejects reached a callback before the error' % (len(obs['ontologies']), accepted))
             return None
         for mode in ('pull', 'push'):
             r = obs[mode]
